@@ -3,15 +3,16 @@ from core import Fn, Target, VC
 TYPES = [
     (r'^nano::tensor2d_t$|tensor_t<nano::tensor_vector_storage_t, double, 2', 'struct nv_tensor2d'),
     (r'^nano::indices_t$|tensor_t<nano::tensor_vector_storage_t, long, 1', 'struct nv_indices'),
-    (r'^nano::rwlearners_t$|std::vector<std::unique_ptr<nano::wlearner_t', 'struct nv_vec'),
+    (r'^nano::rwlearners_t$|^std::vector<std::unique_ptr<nano::wlearner_t(, std::default_delete<nano::wlearner_t>)?>(, std::allocator<[^|]*>)?>$', 'struct nv_vec'),
 ]
 
 
 RTYPES = [(r'^nano::tensor2d_t$|tensor_t<nano::tensor_vector_storage_t, double, 2', 'struct nv_tensor2d'),
           (r'^nano::indices_t$|tensor_t<nano::tensor_vector_storage_t, long, 1', 'struct nv_indices'),
-          (r'^nano::rwlearners_t$|std::vector<std::unique_ptr<nano::wlearner_t', 'struct nv_vec'),
+          (r'^nano::rwlearners_t$|^std::vector<std::unique_ptr<nano::wlearner_t(, std::default_delete<nano::wlearner_t>)?>(, std::allocator<[^|]*>)?>$', 'struct nv_vec'),
           (r'^nano::solver_state_t$', 'struct nv_state'), (r'^nano::solver_status$', 'int32_t'),
           (r'__normal_iterator<\s*(const )?std::unique_ptr<nano::wlearner_t', 'int64_t'),
+          (r'std::vector<std::unique_ptr<nano::wlearner_t.*::(const_iterator|iterator|difference_type|size_type)$', 'int64_t'),
           (r'tensor_t<nano::tensor_(c|m)(map|array)_storage_t, double, 2', 'struct nv_slice2')]
 
 
